@@ -137,10 +137,40 @@ func (e *Engine) verifyFunc(fi *FuncInfo) (rep *FuncReport) {
 	finals = e.runDefers(finals)
 	// run spawned processes sequentially (Kahn semantics: result = eventual histories)
 	var done []Out
+	var retSnaps []*State
 	for _, o := range finals {
-		done = append(done, e.runProcs(o)...)
+		// heap / ghost / external-effect state as it is when the function returns: effects of goroutines that were
+		// not joined (wg.Wait) happen later and are not visible to a caller at return
+		var snap *State
+		if len(o.st.procs) > 0 {
+			snap = o.st.clone()
+		}
+		for _, d := range e.runProcs(o) {
+			done = append(done, d)
+			retSnaps = append(retSnaps, snap)
+		}
 	}
 	for i, o := range done {
+		if snap := retSnaps[i]; snap != nil {
+			vis := o.st.clone()
+			for k := range vis.mem {
+				if strings.HasPrefix(k, "fld:") || strings.HasPrefix(k, "nexec:") {
+					if v, ok := snap.mem[k]; ok {
+						vis.mem[k] = v
+					} else {
+						delete(vis.mem, k)
+					}
+				}
+			}
+			for k := range vis.memV {
+				if v, ok := snap.memV[k]; ok {
+					vis.memV[k] = v
+				} else {
+					delete(vis.memV, k)
+				}
+			}
+			o.st = vis
+		}
 		e.checkExit(fi, o, sig)
 		e.obls = append(e.obls, &Obligation{Name: fmt.Sprintf("%s/cover/exit@%d", fi.Key, i+1), Func: fi.Key, Tags: rep.Tags, Hyps: append([]*Term(nil), o.st.pc...), Goal: tFalse, Kind: "cover", Where: c.Where})
 	}
